@@ -33,6 +33,7 @@ pub fn value_alphabet() -> Vec<(Value, Form)> {
         (Value::Null, Form::Native(0)), // u64::MAX as a native integer
         (Value::Null, Form::Native(4)), // Option::None
         (Value::Null, Form::Native(9)), // BTreeMap<&str, Vec<i32>>
+        (Value::Null, Form::Native(10)), // 0.1f32 (must come back as the JSON number 0.1)
         // an object whose single member is named like the claim it is the value of ("$KEY" is replaced by
         // the claim key when the claim is constructed): the builder wraps claims as {key: value} internally
         (json!({"$KEY": "inner"}), Form::TupleStr),
@@ -119,8 +120,19 @@ pub fn replay_and_judge(proto: Proto, path: &[Op], values: &[(Value, Form)]) -> 
             Op::RemoveTyped(k) => BOp::Remove(TYPED_KEYS[*k].into()),
         });
     }
-    ops.push(BOp::Build);
-    let (events, _) = adapter::with_rng_script(vec![vec![9u8; 32]], || adapter::build_history(proto, Layer::Generic, &key.sk, &ops));
+    // a build after every call (anything the builder remembers from an earlier build must not leak into a
+    // later one); the token of the last build is the one parsed and compared
+    let mut with_builds: Vec<BOp> = Vec::with_capacity(ops.len() * 2 + 1);
+    for op in ops.drain(..) {
+        with_builds.push(op);
+        with_builds.push(BOp::Build);
+    }
+    if with_builds.is_empty() {
+        with_builds.push(BOp::Build);
+    }
+    let ops = with_builds;
+    let script: Vec<Vec<u8>> = (0..ops.len()).map(|i| vec![(i as u8).wrapping_add(9); 32]).collect();
+    let (events, _) = adapter::with_rng_script(script, || adapter::build_history(proto, Layer::Generic, &key.sk, &ops));
     for (op, ev) in ops.iter().zip(events.iter()) {
         match ev {
             BEvent::Applied | BEvent::Built(_) => {}
